@@ -69,6 +69,7 @@ class SymCtx(BaseCtx):
         self.lib = lib
         self.inputs = {}        # name -> SR var (scalars) in creation order
         self.int_inputs = set()
+        self.fp_inputs = set()
         self.pinned = pinned
         from vf.engine import install
         self.np = install.NP
@@ -110,6 +111,25 @@ class SymCtx(BaseCtx):
     def arr(self, name, n, lo=-1000.0, hi=1000.0):
         from vf.engine.symarr import SymArr
         return SymArr([self.real('%s[%d]' % (name, i), lo, hi) for i in range(n)])
+
+    def fparr(self, name, n):
+        """IEEE-754 binary64 record (floating-point lemmas): finite values, bit-exact semantics."""
+        from vf.engine.symarr import SymArr
+        from vf.engine.fpscalars import SF
+        out = []
+        for i in range(n):
+            nm = '%s[%d]' % (name, i)
+            v = SF.var(nm)
+            if nm not in self.inputs:
+                self.inputs[nm] = (v, None, None)
+            self.fp_inputs.add(nm)
+            if self.pinned is not None:
+                import z3
+                self.eng.add_def(v.z == z3.FPVal(float(self.pinned[nm]), z3.Float64()))
+            else:
+                self.eng.add_def(v.finite().z if hasattr(v.finite(), 'z') else __import__('z3').BoolVal(True))
+            out.append(v)
+        return SymArr(out)
 
     def iarr(self, name, n, lo=-100, hi=100):
         """integer-dtype record (kind 'i': NumPy's integer semantics are modelled, incl. truncating stores)."""
@@ -235,6 +255,9 @@ class ConcCtx(BaseCtx):
 
     def iarr(self, name, n, lo=-100, hi=100):
         return np.array([self.integer('%s[%d]' % (name, i), lo, hi) for i in range(n)], dtype=np.int64)
+
+    def fparr(self, name, n):
+        return np.array([float(self.given['%s[%d]' % (name, i)]) for i in range(n)], dtype=float)
 
     def assume(self, cond):
         if not cond:
@@ -368,6 +391,10 @@ def model_inputs(eng, ctx, model):
     from vf.engine.engine import frac_of
     vals = {}
     for name, (v, lo, hi) in ctx.inputs.items():
+        if name in ctx.fp_inputs:
+            from vf.engine.fpscalars import fp_value
+            vals[name] = fp_value(model, v)
+            continue
         fr = frac_of(model.eval(v.z, model_completion=True))
         vals[name] = float(fr)
     return vals
@@ -380,6 +407,8 @@ def _point_models(eng, ctx, neg, tries=4):
     import random
     import z3
     from vf.engine import scalars as S
+    if ctx.fp_inputs:
+        return None
     rng = random.Random(4711)
     nice = [-2.0, -1.0, -0.5, 0.5, 1.0, 2.0, 3.0, 0.25, 1.5]
     for t in range(tries):
@@ -428,6 +457,8 @@ def _perturbed_models(eng, ctx, neg, inputs, tries=12):
     import random
     import z3
     from vf.engine import scalars as S
+    if ctx.fp_inputs:
+        return []
     rng = random.Random(12345)
     out = []
     for t in range(tries):
